@@ -47,18 +47,24 @@ impl Check for C09 {
         let cols2 = 1 + r.usize_below(m2);
         let rows2 = 1 + r.usize_below(12);
         let ml = if tier == Tier::Thorough && r.chance(1, 10) { 60 } else { 14 };
-        let nlines = r.usize_below(ml);
+        let mut nlines = r.usize_below(ml);
+        // "however much has scrolled into an unlimited scrollback": a share of deep sessions
+        let deep = r.chance(1, 60);
+        if deep {
+            nlines = *r.pick(&[300usize, 1101, 1200, 2500, 5000]) + r.usize_below(50);
+            st.bump("deep_scroll_runs");
+        }
         let mut text = String::new();
         for _ in 0..nlines {
             let w = if r.chance(1, 2) { cols } else { cols2 };
-            let len = match r.below(8) {
+            let len = match if deep { 3 + r.below(5) } else { r.below(8) } {
                 0 => 0,
                 1 | 2 => {
                     // the boundary lengths k*w-1, k*w, k*w+1
                     let k = 1 + r.usize_below(3);
                     (k * w + r.usize_below(3)).saturating_sub(1)
                 }
-                _ => r.usize_below(3 * w + 2),
+                _ => r.usize_below(if deep { w.min(6) + 2 } else { 3 * w + 2 }),
             };
             let kind = r.below(10);
             for i in 0..len {
@@ -182,6 +188,9 @@ impl Check for C09 {
         if expected.len() > t.config.rows {
             st.bump("scrolled_into_scrollback");
         }
+        if expected.len() > 1100 + t.config.rows {
+            st.bump("scrollback_over_1100_rows");
+        }
         if t.config.cols == 1 || cols2 == 1 {
             st.bump("one_column");
         }
@@ -198,7 +207,7 @@ impl Check for C09 {
             real: vec!["avt::Vt (two geometries)", "avt::util::TextUnwrapper"],
             simulated: vec!["App (text producer)", "Pipe (chunking)", "configuration twin (S6)"],
             model: vec!["input lines split at CR LF and right-trimmed"],
-            probes: vec!["line_wraps", "line_len_multiple_of_width", "scrolled_into_scrollback", "one_column"],
+            probes: vec!["line_wraps", "line_len_multiple_of_width", "scrolled_into_scrollback", "one_column", "deep_scroll_runs", "scrollback_over_1100_rows"],
             fault_kinds: vec!["feed_str_calls"],
         }
     }
